@@ -28,7 +28,7 @@ from .. import explore, machine, observe, rebuild, spec, sweeps
 from ..indep import foreign_json, foreign_xml, json_reader, xml_reader
 from . import c02
 
-INTERACTING = [("xsi-type-on-record", "shadowed-root-prefix"), ("xsi-type-on-record", "default-ns"),
+INTERACTING = [("subtype-element", "xsi-type-on-record"), ("xsi-type-on-record", "shadowed-root-prefix"), ("xsi-type-on-record", "default-ns"),
                ("subtype-element", "shadowed-root-prefix"), ("nested-xmlns", "default-ns"),
                ("record-array", "multi-member"), ("wrap-formal", "multi-member"), ("prefix-bundle-only", "default-ns")]
 PREFIXES = {"http://a/": "ex", "http://b/": "exb", "http://c/": "cc", "http://bn/": "bn", "http://a/b/": "ab"}
@@ -360,6 +360,8 @@ def json_mutants(j):
                         pass
                 elif t == "xsd:boolean" and isinstance(v["$"], str) and v["$"] in ("true", "false"):
                     alts.append(("kind", v["$"] == "true"))
+                elif isinstance(v["$"], str) and re.match(r"^(0|-?[1-9][0-9]{0,15})$", v["$"]) and "lang" not in v:
+                    alts.append(("kind", OrderedDict([("$", int(v["$"])), ("type", t)])))
                 elif t == "xsd:double":
                     try:
                         alts.append(("kind", OrderedDict([("$", float(v["$"]) if isinstance(v["$"], str) else repr(v["$"])), ("type", t)])))
